@@ -12,7 +12,8 @@ NAMES = ['http', 'dns', 'metrics']
 NSNAMES = ['ns1', 'ns2', 'ns3', 'default']
 WL_KINDS = ['Deployment', 'ReplicaSet', 'StatefulSet', 'DaemonSet', 'Job', 'CronJob', 'ReplicationController', 'Pod']
 CIDRS = ['0.0.0.0/0', '10.0.0.0/8', '10.1.0.0/16', '10.1.2.0/24', '10.1.2.3/32', '10.0.0.0/9', '10.128.0.0/9',
-         '255.255.255.255/32', '0.0.0.0/1', '128.0.0.0/1', '10.1.2.0/25', '10.1.2.128/25', '0.0.0.0/32', '192.168.0.0/16']
+         '255.255.255.255/32', '0.0.0.0/1', '128.0.0.0/1', '10.1.2.0/25', '10.1.2.128/25', '0.0.0.0/32', '192.168.0.0/16',
+         '127.0.0.1/32', '192.168.49.2/32']   # the last two: the host address of generated workload pods / of the bare Pods below
 NSKEY = 'kubernetes.io/metadata.name'
 
 
@@ -79,6 +80,14 @@ def gen_world(r, anp=False, big=False, pods=True, multi_kind=True):
             wl['owner'] = {'name': 'own%d' % i, 'kind': r.choice(['ReplicaSet', 'StatefulSet', 'Job'])}
             wl['extra_owner'] = r.random() < 0.4
         wl['omit_ns'] = r.random() < 0.5
+        # the same name (and kind, owner) may live in two namespaces
+        prev = [o for o in W['workloads'] if o['ns'] != wl['ns']]
+        if prev and r.random() < 0.2:
+            o = r.choice(prev)
+            if not any(q['ns'] == wl['ns'] and q['name'] == o['name'] for q in W['workloads']):
+                wl['name'], wl['kind'] = o['name'], o['kind']
+                wl['owner'] = dict(o['owner']) if o.get('owner') else None
+                wl['extra_owner'] = o.get('extra_owner', False)
         W['workloads'].append(wl)
 
     def npport():
@@ -146,6 +155,15 @@ def gen_world(r, anp=False, big=False, pods=True, multi_kind=True):
     if r.random() < 0.25 and W['workloads']:
         cover_bias(r, W)
 
+    # named-port bias: a policy whose only ports are names the selected workload declares (resolved on the destination for ingress)
+    named = [w for w in W['workloads'] if any(cp['name'] for cp in w['ports'])]
+    if named and r.random() < 0.25:
+        w = r.choice(named)
+        cps = [cp for cp in w['ports'] if cp['name']]
+        W['netpols'].append({'ns': w['ns'], 'name': 'npnamed', 'podSelector': {'matchLabels': dict(w['labels'])} if w['labels'] else {},
+                             'policyTypes': ['Ingress'],
+                             'ingress': [{'from': [{'namespaceSelector': {}}],
+                                          'ports': [{'port': cp['name'], 'protocol': cp['proto']} for cp in cps]}]})
     if anp:
         def asubj():
             if r.random() < 0.5:
@@ -171,7 +189,8 @@ def gen_world(r, anp=False, big=False, pods=True, multi_kind=True):
             rule = {'name': 'r%d' % k, 'action': r.choice(['Allow', 'Deny'] if banp else ['Allow', 'Deny', 'Pass'])}
             rule['from' if d == 'ingress' else 'to'] = [asubj() for _ in range(r.randint(1, 2))]
             if r.random() < 0.7:
-                rule['ports'] = [aport() for _ in range(r.randint(1, 3))]
+                # (a present but empty list matches nothing)
+                rule['ports'] = [aport() for _ in range(0 if r.random() < 0.1 else r.randint(1, 3))]
             return rule
 
         prios = r.sample([0, 1, 5, 10, 50, 999, 1000], r.randint(0, 4))
@@ -317,8 +336,15 @@ def _cports(ports):
 
 
 def workload_manifest(w):
-    tmpl = {'metadata': {'labels': dict(w['labels'])},
-            'spec': {'containers': [{'name': 'c', 'image': 'x', 'ports': _cports(w['ports'])}]}}
+    cps = _cports(w['ports'])
+    # the ports of a workload are those of all its containers: with two or more ports, spread them over two containers
+    # (the named ones in the first container when there are both kinds)
+    first = [q for q in cps if q.get('name')]
+    if not first or len(first) == len(cps):
+        first = cps[:1]
+    containers = [{'name': 'c', 'image': 'x', 'ports': cps}] if len(cps) < 2 else \
+                 [{'name': 'c', 'image': 'x', 'ports': first}, {'name': 'c2', 'image': 'x', 'ports': [q for q in cps if q not in first]}]
+    tmpl = {'metadata': {'labels': dict(w['labels'])}, 'spec': {'containers': containers}}
     meta = {'name': w['name'], 'namespace': w['ns']}
     if w.get('omit_ns') and w['ns'] == 'default':
         meta = {'name': w['name']}        # the parser puts namespaced objects without a namespace into default
